@@ -36,5 +36,15 @@ CLAIMED["C11"] = dict(
          "model (icmp_forwarder.rs) is tied to the code by reading only - the raw-socket history suite is not built; delivery theorems "
          "are per matching waiter (clients sharing identifier+sequence with prefix-equal data share a key: recorded limitation).",
 )
+CLAIMED["C06"] = dict(
+    text="Unbounded Lean theorem decode_segmentation: for every list of chunks (every segmentation, empty chunks included) the model of "
+         "the real decoder loop behind the re-queueing glue never panics and emits exactly what an independent PROTOCOL.md 6.3 reader "
+         "emits from the concatenated stream (accepted records in order; too-short, too-large and non-UTF-8 records skipped in "
+         "their entirety); spec_decode_encode / decode_encode: the client's encoding round-trips for all well-formed datagrams; "
+         "inv_step / inv_buffer_bounded: bounded buffering; 6.4 format. Tied to http_udp_codec.rs + DatagramDecoder::read by "
+         "thousands of segmentations per run (every 1-cut, byte-at-a-time, multi-cuts) of mixed valid/invalid record streams.",
+    note="Trusted: Lean kernel, harness/door, UTF-8 validity as transcribed (Model/Utf8.lean). IPv6 addresses whose first 96 bits are "
+         "zero are indistinguishable from IPv4 on the 6.3 wire and excluded from the round-trip theorem by an explicit predicate.",
+)
 NOT_CLAIMED = {p: "not yet built in this framework (planned, see DESIGN.md section 5)" for p in
-               ["C01", "C02", "C05", "C06", "C07", "C08", "C09", "C10", "C12", "C13", "C14", "C15", "C16", "C17", "C18", "C19", "C20"]}
+               ["C01", "C02", "C05", "C07", "C08", "C09", "C10", "C12", "C13", "C14", "C15", "C16", "C17", "C18", "C19", "C20"]}
